@@ -282,6 +282,25 @@ func identifyDg(b []byte) (c, seq, size int, ok bool) {
 }
 
 func (h *VH) Handle(cx *layer4.Connection, next layer4.Handler) error {
+	if h.K == "closers" {
+		// reads one datagram, then N goroutines close the connection at the same instant (as the goroutines of a
+		// relaying handler do when both directions end together); a panic here kills the process, as in production
+		buf := make([]byte, 64)
+		cx.Read(buf)
+		var wg sync.WaitGroup
+		start := make(chan struct{})
+		for g := 0; g < h.N; g++ {
+			wg.Add(1)
+			go func() {
+				defer wg.Done()
+				<-start
+				cx.Close()
+			}()
+		}
+		close(start)
+		wg.Wait()
+		return nil
+	}
 	rec := recOf(cx)
 	if rec == nil {
 		return errors.New("verif_h: no recorder on connection")
